@@ -93,28 +93,6 @@ Definition panic_allow : list allow := [
   mkAllow (mkSite "kyaml/filesys" "fsOnDisk.CleanedAbs" SkFatal 2)
     (Unreachable "on-disk only: filepath.Join(Dir p, Base p) = p for a cleaned absolute p");
   (* ---- kyaml/openapi ---- *)
-  mkAllow (mkSite "kyaml/openapi" "toTypeMeta" SkAssert 0)
-    (KnownFinding "panic:kyaml/openapi.toTypeMeta:conv->string");
-  mkAllow (mkSite "kyaml/openapi" "toTypeMeta" SkAssert 1)
-    (KnownFinding "panic:kyaml/openapi.toTypeMeta:conv->string");
-  mkAllow (mkSite "kyaml/openapi" "(*ResourceSchema).PatchStrategyAndKeyList" SkAssert 0)
-    (KnownFinding "panic:kyaml/openapi.(*ResourceSchema).PatchStrategyAndKeyList:conv->[]interface{}");
-  mkAllow (mkSite "kyaml/openapi" "(*ResourceSchema).PatchStrategyAndKeyList" SkAssert 1)
-    (KnownFinding "panic:kyaml/openapi.(*ResourceSchema).PatchStrategyAndKeyList:conv->[]interface{}");
-  mkAllow (mkSite "kyaml/openapi" "(*ResourceSchema).PatchStrategyAndKeyList" SkAssert 2)
-    (KnownFinding "panic:kyaml/openapi.(*ResourceSchema).PatchStrategyAndKeyList:conv->string");
-  mkAllow (mkSite "kyaml/openapi" "(*ResourceSchema).PatchStrategyAndKeyList" SkAssert 3)
-    (KnownFinding "panic:kyaml/openapi.(*ResourceSchema).PatchStrategyAndKeyList:conv->string");
-  mkAllow (mkSite "kyaml/openapi" "(*ResourceSchema).PatchStrategyAndKeyList" SkAssert 4)
-    (KnownFinding "panic:kyaml/openapi.(*ResourceSchema).PatchStrategyAndKeyList:conv->string");
-  mkAllow (mkSite "kyaml/openapi" "(*ResourceSchema).PatchStrategyAndKeyList" SkAssert 5)
-    (KnownFinding "panic:kyaml/openapi.(*ResourceSchema).PatchStrategyAndKeyList:conv->string");
-  mkAllow (mkSite "kyaml/openapi" "(*ResourceSchema).PatchStrategyAndKeyList" SkAssert 6)
-    (KnownFinding "panic:kyaml/openapi.(*ResourceSchema).PatchStrategyAndKeyList:conv->string");
-  mkAllow (mkSite "kyaml/openapi" "(*ResourceSchema).PatchStrategyAndKey" SkAssert 0)
-    (KnownFinding "panic:kyaml/openapi.(*ResourceSchema).PatchStrategyAndKey:conv->string");
-  mkAllow (mkSite "kyaml/openapi" "(*ResourceSchema).PatchStrategyAndKey" SkAssert 1)
-    (KnownFinding "panic:kyaml/openapi.(*ResourceSchema).PatchStrategyAndKey:conv->string");
   mkAllow (mkSite "kyaml/openapi" "initSchema" SkPanic 0)
     (KnownFinding "panic:kyaml/openapi.initSchema:explicit-invalid-schema-file");
   mkAllow (mkSite "kyaml/openapi" "initSchema" SkPanic 1)
